@@ -29,7 +29,19 @@ MAX_REPLAYS = 200
 
 
 def _init_worker():
+    # own process group: the parent can kill a worker together with the S/R
+    # children (and their dry-run grandchildren) it forked
+    os.setpgrp()
     env.import_algopy()
+
+
+def _kill_pool(ex):
+    import signal
+    for p in list(getattr(ex, '_processes', {}).values()):
+        try:
+            os.killpg(p.pid, signal.SIGKILL)
+        except (ProcessLookupError, PermissionError):
+            pass
 
 
 def work_chunk(focus, props, seeds, want_samples):
@@ -128,6 +140,7 @@ def main():
     ap.add_argument('--jobs', type=int, default=int(os.environ.get('VERIF_JOBS', '0')) or (os.cpu_count() or 4))
     ap.add_argument('--no-selftest', action='store_true')
     ap.add_argument('--selftest-only', action='store_true')
+    ap.add_argument('--no-regressions', action='store_true')
     ap.add_argument('--no-minimise', action='store_true')
     ap.add_argument('--digests-only', action='store_true')
     ap.add_argument('--seed-list')
@@ -178,7 +191,7 @@ def run_check(args, prop, t0):
 
     # ---- regression corpus: replays of defects that were repaired ("fixed" entries) and
     # of seeded changes; none may reproduce on the tree under test
-    regress_lines, n_regress = replay_regressions(prop)
+    regress_lines, n_regress = ([], 0) if args.no_regressions else replay_regressions(prop)
 
     ctx = multiprocessing.get_context('fork')
     summaries = []
@@ -189,14 +202,19 @@ def run_check(args, prop, t0):
         futs = [ex.submit(work_chunk, prop, [prop], seeds[i:i + chunk], sample_seeds)
                 for i in range(0, len(seeds), chunk)]
         for f in concurrent.futures.as_completed(futs):
-            summaries.extend(f.result())
+            part = f.result()
+            summaries.extend(part)
+            harness = [s for s in part if 'harness_error' in s]
+            if harness:
+                # fail fast: a run that dies or never returns is not a verdict, and waiting
+                # for thousands of them to time out helps nobody
+                for s in harness[:5]:
+                    print('HARNESS-ERROR: seed %d: %s' % (s['seed'], s['harness_error']))
+                sys.stdout.flush()
+                _kill_pool(ex)
+                os._exit(2)
         sim_wall = time.time() - t_sim
         summaries.sort(key=lambda s: s['seed'])
-        harness = [s for s in summaries if 'harness_error' in s]
-        if harness:
-            for s in harness[:5]:
-                print('HARNESS-ERROR: seed %d: %s' % (s['seed'], s['harness_error']))
-            return 2
 
         # ---- violations -----------------------------------------------------
         viol = []
@@ -278,8 +296,11 @@ def run_check(args, prop, t0):
         if k.get('status') == 'open' and k['property'] == prop:
             print('KNOWN-FINDING: property=%s %s :: %s (seen %d times in this run)' % (
                 prop, k['id'], k['what'], n_known.get(k['id'], 0)))
-    for ln in regress_lines + lines:
+    all_lines = regress_lines + lines
+    for ln in all_lines[:80]:
         print(ln)
+    if len(all_lines) > 80:
+        print('... and %d more VIOLATION lines of the groups listed above (not printed)' % (len(all_lines) - 80))
     n_unlisted += len(regress_lines)
 
     evidence = build_evidence(prop, args.tier, base, summaries, det, time.time() - t0, sim_wall, n_unlisted, n_known,
